@@ -221,6 +221,8 @@ LEVEL_TEXT = ("Proof (Coq, all theorems closed under the global context): the re
               "(C02_total, C02_faithful_total); back ends agree on the skeleton (C02_backends_agree_partial) and are the same program, "
               "hence produce the same document without any erasure, on the back-end independent fragment (C02_backends_same_fragment); "
               "code verbatim under O_lexer_concat and refuted for a newline-stripping lexer. The model is tied to base.py/sphinx_.py by "
+              "the source translation Gen/RenderSrc.v (copy_attributes, renderInlineAsText and 17 render methods regenerated "
+              "statement by statement on every run and proved equal to the hand-written model: C02_faithful_src, C02_image_alt_src), by "
               "Gen/Render.v (dispatch table, list style map, alignment classes, link dispatch order, raw literals - proved equal to the "
               "specification's fixed tables) and by differential correspondence on real token trees in all modes and both renderers; the "
               "statements of C02_faithful, of the totality premise and of tree-level back-end agreement after the documented erasure "
